@@ -272,12 +272,12 @@ func renderLin(p *LProg) (string, string) {
 
 // linearityErrors are the checker errors that are verdicts about the property.
 var linearityErrors = map[string]bool{
-	"ResourceLossError":                  true,
-	"ResourceUseAfterInvalidationError":  true,
-	"InvalidResourceAssignmentError":     true,
-	"ResourceFieldNotInvalidatedError":   true,
-	"InvalidNestedResourceMoveError":     true,
-	"ResourceCapturingError":             true,
+	"ResourceLossError":                 true,
+	"ResourceUseAfterInvalidationError": true,
+	"InvalidResourceAssignmentError":    true,
+	"ResourceFieldNotInvalidatedError":  true,
+	"InvalidNestedResourceMoveError":    true,
+	"ResourceCapturingError":            true,
 }
 
 var linBaseActivation = func() *sema.VariableActivation {
